@@ -157,4 +157,85 @@ theorem position_startpos_holds_the_game (h : Hasher) (ms : List Spec.Move) (hl 
   subst hrep
   exact ⟨by rw [habs, habs0], hwf, hinv⟩
 
+
+/-! ### `position fen <FEN of a legal position> moves <legal game>` -/
+
+theorem joinWith_sep_mem (sep : Char) : ∀ (l : List (List Char)), 2 ≤ l.length → sep ∈ joinWith sep l := by
+  intro l hl
+  match l, hl with
+  | x :: y :: rest, _ => simp [joinWith]
+
+/-- none of the six fields of a canonical FEN text is the word `moves` -/
+theorem canon_fields_not_moves (P : Spec.Position) (half full : List Char) (hh : CounterOK half) (hf : CounterOK full) :
+    joinWith '/' ((rowsOf P).map fun r => r.map tokChar) ≠ "moves".toList ∧ sideText P.side ≠ "moves".toList ∧
+    rightsOf P ≠ "moves".toList ∧ epFenText (P.ep.map Spec.toPoint) ≠ "moves".toList ∧
+    half ≠ "moves".toList ∧ full ≠ "moves".toList := by
+  have hdig : ∀ s : List Char, CounterOK s → s ≠ "moves".toList := by
+    intro s hs e
+    have := hs.2.1
+    rw [e] at this
+    revert this; decide
+  refine ⟨?_, ?_, ?_, ?_, hdig half hh, hdig full hf⟩
+  · intro e
+    have hm := joinWith_sep_mem '/' ((rowsOf P).map fun r => r.map tokChar) (by
+      rw [List.length_map, (rowsOf_ok P).1]; decide)
+    rw [e] at hm
+    revert hm; decide
+  · cases P.side <;> decide
+  · intro e
+    have hlen : (rightsOf P).length ≤ 4 := by
+      unfold rightsOf
+      cases P.wks <;> cases P.wqs <;> cases P.bks <;> cases P.bqs <;> decide
+    rw [e] at hlen
+    revert hlen; decide
+  · intro e
+    have hlen : (epFenText (P.ep.map Spec.toPoint)).length ≤ 2 := by
+      cases P.ep with
+      | none => decide
+      | some s => show (pointDisplay _).length ≤ 2; rw [pointDisplay_length]; decide
+    rw [e] at hlen
+    revert hlen; decide
+
+/-- **`position fen … moves …`** for EVERY legal position P and every legal game from it, every
+    hasher: the command whose tokens are `position fen` + the six fields of the canonical FEN text of
+    P (any counters below 2^32) + `moves` + the UCI texts of the game, whenever it is served (only a
+    repetition count above 255 stops it), leaves the engine holding exactly the rules' position after
+    the game, well-formed, key exact -/
+theorem position_fen_holds_the_game (h : Hasher) (P : Spec.Position) (hsz : P.cells.size = 64)
+    (hep : ∀ e, P.ep = some e → InB e) (hlp : LP P) (half full : List Char) (hh : CounterOK half) (hf : CounterOK full)
+    (ms : List Spec.Move) (hl : LegalSeq P ms) (p : Pos) (t : DrawTable)
+    (hp : playOutPosition h (["position".toList, "fen".toList,
+        joinWith '/' ((rowsOf P).map fun r => r.map tokChar), sideText P.side, rightsOf P,
+        epFenText (P.ep.map Spec.toPoint), half, full, "moves".toList] ++ ms.map uciText) = some (p, t)) :
+    abs p = ms.foldl Spec.apply P ∧ WFp p ∧ Inv h p := by
+  obtain ⟨p0, hload, habs0, hwf0⟩ := every_position_loads_from_its_fen h P hsz hep half full hh hf
+  obtain ⟨wf0, inv0⟩ := hwf0 hlp
+  obtain ⟨n1, n2, n3, n4, n5, n6⟩ := canon_fields_not_moves P half full hh hf
+  unfold playOutPosition at hp
+  simp only [List.cons_append, List.nil_append, List.getElem?_cons_succ, List.getElem?_cons_zero, if_true] at hp
+  -- the six fields joined by blanks are the canonical text
+  have hjoin : (List.drop 2 (List.take 7 ("position".toList :: "fen".toList ::
+        joinWith '/' ((rowsOf P).map fun r => r.map tokChar) :: sideText P.side :: rightsOf P ::
+        epFenText (P.ep.map Spec.toPoint) :: half :: full :: "moves".toList :: ms.map uciText))).foldl
+        (fun acc c => acc ++ c ++ [' ']) [] ++ full = canonText P half full := by
+    simp [canonText, fenText, List.append_assoc]
+  rw [hjoin, hload] at hp
+  simp only at hp
+  have hidx : ("position".toList :: "fen".toList ::
+        joinWith '/' ((rowsOf P).map fun r => r.map tokChar) :: sideText P.side :: rightsOf P ::
+        epFenText (P.ep.map Spec.toPoint) :: half :: full :: "moves".toList :: ms.map uciText).findIdx?
+        (· = "moves".toList) = some 8 := by
+    have e1 : ("position".toList = "moves".toList) = False := by decide
+    have e2 : ("fen".toList = "moves".toList) = False := by decide
+    simp only [List.findIdx?_cons, e1, e2, n1, n2, n3, n4, n5, n6, decide_false, decide_true,
+      Bool.false_eq_true, if_false, if_true, Option.map_some]
+  rw [hidx] at hp
+  simp only [List.drop_succ_cons, List.drop_zero] at hp
+  have hrep := playMoves_position h p0 _ _ p t hp
+  obtain ⟨r, hr, habs, hwf, hinv⟩ := replay_of_a_legal_game h ms p0 wf0 inv0 (by rw [habs0]; exact hl)
+  rw [hr] at hrep
+  injection hrep with hrep
+  subst hrep
+  exact ⟨by rw [habs, habs0], hwf, hinv⟩
+
 end Walleye
